@@ -111,6 +111,9 @@ class BehavioralRTLIRGeneratorL1( ast.NodeVisitor ):
 
   def handle_constant( s, node, obj ):
     if isinstance( obj, int ):
+      if obj < 0:
+        raise PyMTLSyntaxError( s.blk, node,
+          f'negative integer constant {obj} has no bitwidth: use BitsN( {obj} )!' )
       # bool is an int: a Python True/False constant is the number 1/0
       return bir.Number( int( obj ) )
     elif isinstance( obj, Bits ):
